@@ -104,11 +104,37 @@ def dispatchCli : List String → Option (Obs × Option Obs)
       ((Seqls.dirSpecOf t real).filter nonDir).filterMap fun e =>
         if !fl.all && isPrefixOf ['.'] e.name then none else some (pre ++ e.name)
     let tame := !(names.any negZeroToken)
+    -- spec side for pattern arguments: the files `<basename><frame number><ext>` of the pattern's
+    -- directory, when they all have one digit width (`none` = no claim)
+    let patFiles : List (Option (List Bytes)) := patRoots.map fun p =>
+      match Seq.parse .hash4 p with
+      | .error _ => some []
+      | .ok fs =>
+        if fs.pad.isEmpty then none else
+        match realDir fs.dir with
+        | none => some []
+        | some real =>
+          let cands : List (Bytes × Bytes) := ((Seqls.dirSpecOf t real).filter nonDir).filterMap fun e =>
+            let n := e.name
+            if !fl.all && isPrefixOf ['.'] n then none
+            else if isPrefixOf fs.base n && isSuffixOf fs.ext n && fs.base.length + fs.ext.length ≤ n.length then
+              let tk := (n.drop fs.base.length).take (n.length - fs.base.length - fs.ext.length)
+              if (frameAt tk).map (·.2) == some [] then some (tk, fs.dir ++ n) else none
+            else none
+          let odd := cands.any fun c =>
+            (atoi c.1).isNone || (match c.1 with | '-' :: zs => zs.all (· = '0') | _ => false)
+          if odd || (cands.map (·.1.length)).eraseDups.length > 1 then none
+          else some (cands.map (·.2))
+    let patClaim := dirRoots.isEmpty ∧ !patRoots.isEmpty ∧ !fl.strict ∧ patFiles.all (·.isSome)
+    let patCover : List Bytes := patFiles.flatMap fun o => o.getD []
     let sp : Obs :=
       [("stable", "1"), ("timeout", "0")] ++
       (if !tame then [("~negzero", "1")] else []) ++
       (if !fl.seqsOnly ∧ patRoots.isEmpty ∧ selected.length ≤ 3000 then
          [("cover", hexList (sortBytes (selected.map fun p =>
+            if abs then (if isPrefixOf ['/'] p then pathClean p else pathClean ("/T/".toList ++ p)) else p)))]
+       else if patClaim ∧ patCover.length ≤ 3000 then
+         [("cover", hexList (sortBytes (patCover.map fun p =>
             if abs then (if isPrefixOf ['/'] p then pathClean p else pathClean ("/T/".toList ++ p)) else p)))]
        else [])
     some (m, some sp)
